@@ -36,7 +36,8 @@ class C13(Check):
     prop_file = "theories/Properties/Properties_C13.v"
     theorems = ("C13_activation_exactly_once", "C13_propagation_terminates", "C13_announced_iff",
                 "C13_payload_star", "C13_payload_same_or_disjoint", "C13_payload_iff_no_relay_lacks_output",
-                "C13_payload_refuted", "C13_bit_mapping_bijective", "C13_unique_parent")
+                "C13_each_output_once", "C13_payload_refuted", "C13_payload_refuted_binomial",
+                "C13_bit_mapping_bijective", "C13_unique_parent")
     comp = "bcast"
     extract_file = "theories/Extract/Extract_Bcast.v"
     extracted = ("bcast",)
